@@ -233,6 +233,7 @@ func (p *Prog) generateOne(fn *ssa.Function, sp *spec.FuncSpec, splits []splitVa
 		vc.safeProps = sp.SafetyProp
 	}
 	vc.noSafety = sp.NoSafety
+	vc.typedPtrs = sp.TypedPtrs
 	tt := vc.tt
 	vc.cmd("(declare-const alloc0 Int)")
 	vc.cmd(fmt.Sprintf("(assert (>= alloc0 %d))", maxGlobals))
@@ -373,7 +374,7 @@ func (p *Prog) generateOne(fn *ssa.Function, sp *spec.FuncSpec, splits []splitVa
 					nm = r.names
 				}
 			}
-			m, err := vc.evalMods(ms, &Env{vc: vc, names: nm, st: entry, old: entry, pkg: pkg})
+			m, err := vc.evalMods(ms, &Env{vc: vc, names: nm, st: entry, old: entry, pkg: pkg}, 0)
 			if err != nil {
 				return vc, fmt.Errorf("%s:%d: %v", ms.File, ms.Line, err)
 			}
@@ -471,7 +472,29 @@ func (p *Prog) generateOne(fn *ssa.Function, sp *spec.FuncSpec, splits []splitVa
 	}
 	// frame obligations
 	if hasMod {
-		vc.frameObligations("frame", entry, exitSt, exitReach, entryMods, sp)
+		exitMods := append([]modLoc{}, entryMods...)
+		for _, ms := range modSpecs {
+			nm := post
+			for _, r := range refs {
+				if r.fs == ms {
+					nm = map[string]SV{}
+					for k, x := range r.names {
+						nm[k] = x
+					}
+					for i, rn := range r.fs.Results {
+						if i < len(results) {
+							nm[rn] = SV{T: results[i], Ty: fn.Signature.Results().At(i).Type()}
+						}
+					}
+				}
+			}
+			m, err := vc.evalMods(ms, &Env{vc: vc, names: nm, st: entry, old: entry, pkg: pkg}, 1)
+			if err != nil {
+				return vc, fmt.Errorf("%s:%d: %v", ms.File, ms.Line, err)
+			}
+			exitMods = append(exitMods, m...)
+		}
+		vc.frameObligations("frame", entry, exitSt, exitReach, exitMods, sp)
 	}
 	// vacuity probe: the exit must be reachable
 	if o := vc.oblige("cover-exit", sp.Props, exitReach, False, "normal exit reachable", relFile(sp.File)); o != nil {
